@@ -452,6 +452,9 @@ func readDnsMsgFromBufio(reader *bufio.Reader, timeout time.Duration, conn net.C
 		if err := conn.SetReadDeadline(time.Now().Add(timeout)); err != nil {
 			return nil, 0, err
 		}
+		// The deadline belongs to this read only: when the connection falls
+		// through to the normal TCP relay it must not inherit it.
+		defer func() { _ = conn.SetReadDeadline(time.Time{}) }()
 	}
 
 	// Peek 2-byte length prefix first (don't consume)
